@@ -673,3 +673,88 @@ impl Monitor for CsMon {
 
 #[allow(dead_code)]
 fn _unused(_: BTreeSet<u8>) {}
+
+// ------------------------------------------------------------------------------------------
+// C07, files that change while they are served: judged on the wire alone
+// ------------------------------------------------------------------------------------------
+
+/// The first DATA block shorter than the acknowledged block length is the end marker. Once the peer has
+/// acknowledged it, the sender emits nothing more; whatever happens it ends.
+pub struct WireEndMon {
+    attr: Attr,
+    client: SocketAddr,
+    pending_b: BTreeMap<SocketAddr, usize>,
+    b: BTreeMap<TaskId, usize>,
+    short_block: BTreeMap<TaskId, u16>,
+    short_acked: BTreeMap<TaskId, bool>,
+    pub probes: BTreeMap<&'static str, u64>,
+}
+
+impl WireEndMon {
+    pub fn new(client: SocketAddr) -> WireEndMon {
+        WireEndMon { attr: Attr::default(), client, pending_b: BTreeMap::new(), b: BTreeMap::new(), short_block: BTreeMap::new(), short_acked: BTreeMap::new(), probes: BTreeMap::new() }
+    }
+}
+
+impl Monitor for WireEndMon {
+    fn on_event(&mut self, _w: &Inner, _st: &Stamp, ev: &Ev) -> Option<Violation> {
+        let norm = self.attr.feed(ev);
+        if let Some((task, WRecv::Data(bytes))) = &norm {
+            if let (Some(Pkt::Ack(n)), Some(s)) = (rfc::decode(bytes), self.short_block.get(task)) {
+                if n == *s {
+                    self.short_acked.insert(*task, true);
+                }
+            }
+        }
+        if let Ev::Send { actor: Actor::Task(t), dst, data, .. } = ev {
+            if *dst != self.client {
+                return None;
+            }
+            if Some(*t) == self.attr.listener {
+                if let Some(Pkt::Oack(o)) = rfc::decode(data) {
+                    self.pending_b.insert(*dst, rfc::opt(&o, "blksize").and_then(|v| v.parse().ok()).unwrap_or(512));
+                }
+                return None;
+            }
+            if let Some(Pkt::Data { n, payload }) = rfc::decode(data) {
+                let b = *self.b.entry(*t).or_insert_with(|| self.pending_b.get(dst).copied().unwrap_or(512));
+                match self.short_block.get(t) {
+                    None => {
+                        if payload.len() < b {
+                            self.short_block.insert(*t, n);
+                            bump(&mut self.probes, "short_block_after_truncation_seen");
+                        }
+                    }
+                    Some(s) => {
+                        if n != *s && self.short_acked.get(t).copied().unwrap_or(false) {
+                            return Some(Violation::new("C07", "C07.data_after_acknowledged_final_block", format!("task{t} sent DATA({n}, {} bytes) after its short block {s} (the end marker) had been acknowledged", payload.len())));
+                        }
+                        if n != *s && n.wrapping_sub(*s) < 0x8000 {
+                            return Some(Violation::new("C07", "C07.block_beyond_final", format!("task{t} sent DATA({n}) beyond the short block {s} it had already sent as the end of the transfer")));
+                        }
+                    }
+                }
+            }
+        }
+        None
+    }
+
+    fn at_end(&mut self, w: &Inner, end: EndReason) -> Option<Violation> {
+        for t in &self.attr.spawn_order {
+            if w.task_alive(*t) {
+                return Some(Violation::new("C07", "C07.never_ends", format!("task{t} is still alive at the end of the run ({end:?})")));
+            }
+        }
+        None
+    }
+
+    fn probes(&self, out: &mut BTreeMap<&'static str, u64>) {
+        for (k, v) in &self.probes {
+            *out.entry(k).or_insert(0) += v;
+        }
+    }
+
+    fn as_any(&self) -> &dyn std::any::Any {
+        self
+    }
+}
